@@ -242,6 +242,9 @@ def install(prog):
 
     def numfmt(it, kind, v, f, ty):
         """hook of fmt_value: True if handled"""
+        if getattr(it.prog, 'numfmt_skeleton', False) and (isinstance(v, Big) or (isinstance(v, Agg) and v.ty == 'Ratio') or (is_sym(v) and (z3.is_bv(v) or z3.is_fp(v))) or isinstance(v, float)):
+            # panic-freedom harnesses: the std number printers cannot panic and the text is not judged -- one fixed digit
+            pad_write(f, [(ord('7'), 1)]); return True
         if kind not in ('display', 'lowerhex', 'octal', 'binary', 'debug'): return False
         if isinstance(v, Big):
             write_big(it, f, v, kind); return True
@@ -353,6 +356,11 @@ def install(prog):
             if known_digit(it, ch, radix) is not None: continue
             d = to_digit(it, ch, radix)
             if d.var == 0:
+                if getattr(it.prog, 'opaque_float_math', False):
+                    # panic-freedom harnesses: the library parser cannot panic; both outcomes are possible
+                    if it.choose(2) == 1: return err('Invalid')
+                    it.fresh_n += 1
+                    return mk_ok(z3.FP('parsed_f64_%d_%d' % (len(it.taken), it.fresh_n), z3.Float64()))
                 if not is_sym(ch) and chr(ch) in '.eEpP': raise Unsupported('float literal with a fraction or an exponent')
                 if is_sym(ch):
                     if it.branch(z3.Or(*[ch == ord(c) for c in '.eEpP'])): raise Unsupported('float literal with a fraction or an exponent')
